@@ -19,7 +19,19 @@ pub fn sizes(r: &mut Rng, thorough: bool) -> Vec<usize> {
     for _ in 0..(if thorough { 3000 } else { 700 }) { let bits = r.range(1, if thorough { 15 } else { 12 }); v.push(r.below(1 << bits) as usize % 28673); }
     v
 }
-pub fn gen_packet(r: &mut Rng, n: usize) -> Packet { Packet { is_error: r.chance(1, 3), device_address: r.u16b() as u16, data: r.bytes(n) } }
+pub fn gen_packet(r: &mut Rng, n: usize) -> Packet {
+    let mut p = Packet { is_error: r.chance(1, 3), device_address: r.u16b() as u16, data: r.bytes(n) };
+    // coincidences between independent parameters: payload bytes that repeat the length, the frame index, the frame count or the address
+    match r.below(12) {
+        0 => { for b in p.data.iter_mut() { *b = n as u8; } }
+        1 => { for (i, b) in p.data.iter_mut().enumerate() { *b = (i / 7) as u8; } }
+        2 => { let fc = if n <= 8 { 1 } else { (n + 6) / 7 }; for b in p.data.iter_mut() { *b = (fc - 1) as u8; } p.device_address = (fc - 1) as u16; }
+        3 => { let a = p.device_address; for (i, b) in p.data.iter_mut().enumerate() { *b = if i % 2 == 0 { (a >> 8) as u8 } else { a as u8 }; } }
+        4 => { p.device_address = n as u16; }
+        _ => {}
+    }
+    p
+}
 pub fn gen_packets(r: &mut Rng, thorough: bool, cx: &mut Ctx) {
     for n in sizes(r, thorough) { let p = gen_packet(r, n); let mut l = vec![]; show_packet(&p, &mut l); cx.emit(&l); }
 }
